@@ -211,6 +211,9 @@ class ArrExec:
             raise Unsupported(f"expression {type(e).__name__} at line {e.lineno}")
         return m(e, env)
 
+    def ev_Tuple(s, e, env):
+        return tuple(s.ev(x, env) for x in e.elts)
+
     def ev_Constant(s, e, env):
         if isinstance(e.value, (int, float)) and not isinstance(e.value, bool):
             return e.value
